@@ -153,7 +153,7 @@ class SDFilesystem:
         # since we're forcing opening in binary mode, we can assume this will be BinaryIO
         # noinspection PyTypeChecker
         fh: BinaryIO = real_path.open(mode)
-        return self._crypto.create_ctr_io(Keyslot.SD, fh, self._crypto.sd_path_to_iv('/' + path))
+        return self._crypto.create_ctr_io(Keyslot.SD, fh, self._crypto.sd_path_to_iv('/' + path), closefd=True)
 
     def listdir(self, path: 'Union[PathLike, str]', id1: str = None) -> 'List[str]':
         """
